@@ -8,6 +8,7 @@ printed against the path it created.  See NOTES.md.
 import os
 import shutil
 import tempfile
+import time
 
 import vlib
 
@@ -60,13 +61,14 @@ def run(ctx):
         budget = max(20, ctx.time_left() - (45 if ctx.tier == "quick" else 120))
         if ctx.tier == "thorough":
             budget = min(budget, 1500)
+        stop_at = time.time() + budget  # one absolute deadline for all shards (they run in waves of WORKERS)
         roots = []
         for k in range(n):
             r = os.path.join(top, "w%03d" % k)  # fixed width: the root length is part of the total path length
             os.mkdir(r)
             roots.append(r)
         jobs = [(lambda k=k: ctx.run_harness(driver, ["--root", roots[k]] + helper_args(helpers) +
-                                             ["--tier", ctx.tier, "--shard", str(k), str(n), "--deadline", str(int(budget))],
+                                             ["--tier", ctx.tier, "--shard", str(k), str(n), "--deadline", str(int(stop_at))],
                                              tag="c20-driver"))
                 for k in range(n)]
         vlib.parallel(jobs, workers=WORKERS)
